@@ -399,6 +399,11 @@ func Response(w *world.World, raws []json.RawMessage) ([]interface{}, error) {
 			n, _ := strconv.Atoi(cl)
 			lenOk = n == len(r.Body)
 		}
+		if r.WireCL != "" {
+			// ... and the value a socket would have carried (a framework may correct the header after the status line is out)
+			n, _ := strconv.Atoi(r.WireCL)
+			lenOk = lenOk && n == len(r.Body)
+		}
 		hv := r.Header
 		headersOk := len(hv["X-Multi"]) == 2 && hv["X-Multi"][0] == "one" && hv["X-Multi"][1] == "two" &&
 			hv.Get("X-Utf8") == "h\u00e9llo w\u00f6rld \u4e16\u754c" && hv.Get("Content-Type") == c.CType && hv.Get("Etag") == `"v1"`
@@ -544,6 +549,11 @@ func Response(w *world.World, raws []json.RawMessage) ([]interface{}, error) {
 			}
 		}
 		for _, p := range hits {
+			if p.i%3 == 0 {
+				// somebody asks HEAD for the same URL first (GET and HEAD are separate entries; whatever pike does with the
+				// HEAD, the GET entry goes on being served as it was stored)
+				w.DoCase("", p.c.Setting, "HEAD", "h", p.uri, hdr(""), p.c)
+			}
 			take()
 			r := w.DoCase("", p.c.Setting, "GET", "h", p.uri, hdr(p.c.Accept), p.c)
 			observe(p, r, p.storeOps, take())
